@@ -1,16 +1,19 @@
 """C01 rule set (see DESIGN.md section 5)."""
 from rules.builder import r01_1, r01_2, r01_3, r01_4
 from rules.search import r01_5, r01_6, r09_1
+from rules.layout import r04_5_dfa
+from rules.prefilter import r05_5, r05_3
 
 LEVEL = 'other'
-RULES = [('R01.1', r01_1), ('R01.2', r01_2), ('R01.3', r01_3), ('R01.4', r01_4), ('R01.5', r01_5), ('R01.6', r01_6), ('R09.1', r09_1)]
+RULES = [('R01.1', r01_1), ('R01.2', r01_2), ('R01.3', r01_3), ('R01.4', r01_4), ('R01.5', r01_5), ('R01.6', r01_6), ('R09.1', r09_1), ('R04.5d', r04_5_dfa), ('R05.5', r05_5), ('R05.3', r05_3)]
 EXPLANATION = """Mechanism shape only. R01.1 every construction phase of noncontiguous::Compiler::compile runs exactly once on every path to Ok and
 the orderings that matter (with their reasons) hold by dominance. R01.2 in both BFS loops of fill_failure_transitions a match state's
 failure link is set to DEAD exactly under is_leftmost && is_match, and such a state gets neither a computed link nor inherited
 matches. R01.3 under leftmost-first, once a match state lies on a pattern's path no state/transition is added for the rest of that
 pattern and the pattern is abandoned. R01.4 the start state's self loop is redirected to DEAD only under is_leftmost && start.is_match(),
 only for self-loop transitions, and the dense row is kept coherent. R01.5 the driver's mat has exactly the definitions None and
-Some(get_match(aut, sid, 0, pos)) and the dead / end-of-span exits return Ok(mat). R01.6 FindIter::next restarts at m.end(), records
+Some(get_match(aut, sid, 0, pos)) and the dead / end-of-span exits return Ok(mat). R04.5d the DFA construction follows failure links unless state.fail() is DEAD (no match-based short cut). R05.5/R05.3 the
+prefilter that may confirm matches keeps its pattern ids aligned and its candidates inside the span. R01.6 FindIter::next restarts at m.end(), records
 last_match_end, and the empty-match rule (guard, +1, re-search) has the specified shape."""
 NOT_DECIDED = """That the trie and failure links built for an arbitrary pattern set make the loop return the leftmost-first/longest occurrence.
 Known behavioural defect NOT visible to these rules (D5): MatchKind::LeftmostFirst, patterns ["abc", ""], haystack "abx" returns (1, 2..2)
